@@ -35,24 +35,43 @@ func usedOnlyByAssume(in ssa.Instruction) bool {
 	return true
 }
 
+// atCalls: obligations "atcall CALLEE requires ..." of frame fr's contract at this call.
+func (e *Exec) atCalls(fr *Frame, st *State, cc *ssa.CallCommon, pos token.Pos) {
+	name := ""
+	if cc.IsInvoke() {
+		name = cc.Method.Name()
+	} else if f := cc.StaticCallee(); f != nil {
+		name = f.Name()
+	} else if _, isB := cc.Value.(*ssa.Builtin); !isB {
+		// call through a function value: named after the contract on its function type, if any
+		if fc := e.w.Contract[funcTypeKey(cc.Signature())]; fc != nil {
+			name = fc.Key
+		}
+	}
+	for _, ac := range fr.fc.AtCalls {
+		if ac.Callee != name {
+			continue
+		}
+		env := e.specEnvAt(fr, st)
+		f := e.specBool(env, ac.Clause)
+		key := "atcall." + ac.Callee + "." + ac.Clause.Label
+		e.sc.oblig(st.reach, f, fmt.Sprintf("%s#%s", e.unit, key)+e.siteSuffix(key), "pre", fmt.Sprintf("required at every call of %s: %s", ac.Callee, ac.Clause.Text), e.pos(pos))
+	}
+}
+
 func (e *Exec) call(fr *Frame, st *State, cc *ssa.CallCommon, instr ssa.Instruction, pos token.Pos) Val {
 	e.curCall = instr
+	// "atcall" clauses of a function also cover the closures it calls in place
+	if afr := fr; true {
+		for afr.fc == nil && afr.outer != nil {
+			afr = afr.outer
+		}
+		if afr != fr && afr.fc != nil && len(afr.fc.AtCalls) > 0 {
+			e.atCalls(afr, st, cc, pos)
+		}
+	}
 	if fr.fc != nil && len(fr.fc.AtCalls) > 0 {
-		name := ""
-		if cc.IsInvoke() {
-			name = cc.Method.Name()
-		} else if f := cc.StaticCallee(); f != nil {
-			name = f.Name()
-		}
-		for _, ac := range fr.fc.AtCalls {
-			if ac.Callee != name {
-				continue
-			}
-			env := e.specEnvAt(fr, st)
-			f := e.specBool(env, ac.Clause)
-			key := "atcall." + ac.Callee + "." + ac.Clause.Label
-			e.sc.oblig(st.reach, f, fmt.Sprintf("%s#%s", e.unit, key)+e.siteSuffix(key), "pre", fmt.Sprintf("required at every call of %s: %s", ac.Callee, ac.Clause.Text), e.pos(pos))
-		}
+		e.atCalls(fr, st, cc, pos)
 	}
 	var args []Val
 	if cc.IsInvoke() {
@@ -87,6 +106,10 @@ func (e *Exec) call(fr *Frame, st *State, cc *ssa.CallCommon, instr ssa.Instruct
 	if sig := cc.Signature(); sig.Params().Len() == 0 && sig.Results().Len() == 1 && isTimeTime(sig.Results().At(0).Type()) {
 		e.sc.used["func() time.Time values (WorldState.Now) are reads of a monotone clock without other side effects"] = true
 		return Val{T: e.readClock(st), Typ: sig.Results().At(0).Type()}
+	}
+	if fc := e.w.Contract[funcTypeKey(cc.Signature())]; fc != nil {
+		e.sc.used["every function value of type "+fc.Key+" is assumed to satisfy the contract stated for that type"] = true
+		return e.applyContract(fr, st, fc, args, cc.Signature(), pos)
 	}
 	// unknown dynamic call
 	e.sc.uncontracted[fmt.Sprintf("dynamic call through a function value at %s (everything havocked)", e.pos(pos))] = true
@@ -197,6 +220,12 @@ func (e *Exec) callKey(fr *Frame, st *State, key string, fn *ssa.Function, bind 
 		e.havocAll(st)
 		return e.resultVal(st, "res."+fn.Name(), sig)
 	}
+	if fn != nil && fn.Pkg != nil && e.sc.isRepoPkg(fn.Pkg.Pkg) {
+		// a function of another package of the repository, no contract
+		e.sc.uncontracted[fmt.Sprintf("%s (repository function without contract: everything havocked)", key)] = true
+		e.havocAll(st)
+		return e.resultVal(st, "res."+fn.Name(), sig)
+	}
 	return e.libDefault(fr, st, key, args, sig, pos)
 }
 
@@ -257,6 +286,7 @@ func (e *Exec) inlineCall(fr *Frame, st *State, fn *ssa.Function, bind []Val, ar
 	nf := e.newFrame(fn, false)
 	nf.entry = fr.entry
 	nf.depth = fr.depth + 1
+	nf.outer = fr
 	for i, p := range fn.Params {
 		if i < len(args) {
 			a := args[i]
@@ -328,9 +358,42 @@ func (e *Exec) runDefers(fr *Frame, st *State) {
 func (e *Exec) havocAll(st *State) {
 	oldAlloc := e.hget(st, "G_alloc")
 	held := e.hget(st, "G_held")
+	// user ghost counters (ghostget) are only ever incremented, by contracts: unknown code may raise
+	// them but not lower them
+	counters := map[string]string{}
+	for name, srt := range e.heapSort {
+		if strings.HasPrefix(name, "GU_") && srt == "(Array Int Int)" {
+			counters[name] = e.hget(st, name)
+		}
+	}
+	flags := map[string]string{}
+	for name := range e.heapSort {
+		if strings.HasPrefix(name, "GS_") {
+			flags[name] = e.hget(st, name)
+		}
+	}
+	var privVals []string
+	for _, pb := range st.priv {
+		privVals = append(privVals, sel(e.hget(st, pb.heap), pb.ref))
+	}
 	st.heap = map[string]string{}
 	st.base = e.sc.freshName("H")
+	for name, t := range flags {
+		st.heap[name] = t
+	}
+	for i, pb := range st.priv {
+		e.sc.assume(st.reach, eq(sel(e.hget(st, pb.heap), pb.ref), privVals[i]))
+	}
 	e.sc.assume(st.reach, "(>= "+e.hget(st, "G_alloc")+" "+oldAlloc+")")
+	var cnames []string
+	for name := range counters {
+		cnames = append(cnames, name)
+	}
+	sort.Strings(cnames)
+	for _, name := range cnames {
+		nv := e.hget(st, name)
+		e.sc.assume(st.reach, fmt.Sprintf("(forall ((q Int)) (! (>= (select %s q) (select %s q)) :pattern ((select %s q))))", nv, counters[name], nv))
+	}
 	// the set of held locks belongs to this goroutine; foreign code does not change it
 	st.heap["G_held"] = held
 }
@@ -422,6 +485,9 @@ func (e *Exec) applyContract(fr *Frame, st *State, fc *FuncContract, args []Val,
 		}
 	}
 	e.sc.used["contract:"+fc.FullKey] = true
+	if fc.Flags["noframe"] != "" && len(fc.ModClauses) > 0 {
+		e.sc.used["the modifies clause of "+fc.FullKey+" is assumed, not checked (flag noframe)"] = true
+	}
 	env := &SpecEnv{e: e, fr: fr, st: st, old: st, vars: vars, oldVars: vars}
 	for _, c := range fc.Requires {
 		f := e.specBool(env, c)
@@ -454,8 +520,33 @@ func (e *Exec) applyContract(fr *Frame, st *State, fc *FuncContract, args []Val,
 	for _, c := range fc.Ensures {
 		e.sc.assume(st.reach, e.specBoolA(env2, c))
 	}
+	// path fact for succeeded("F"): did the most recent call of F return a nil error?
+	if n := len(resList); n > 0 && isErrorType(resList[n-1].Typ) {
+		e.hset(st, e.succFlag(fc.Key), eq(resList[n-1].T, "nil_iface"))
+	}
+	if e.calledNamed[fc.Key] {
+		e.hset(st, e.calledFlag(fc.Key), "true")
+	}
 	e.boxCopyOut(st, args)
 	return res
+}
+
+// succFlag: ghost scalar "the most recent call of the contracted function KEY in this goroutine
+// returned a nil error" (false before any call). A fact about the path, not about shared memory:
+// foreign code does not change it.
+func (e *Exec) succFlag(key string) string { return e.pathFlag("succ", key) }
+
+// calledFlag: "the contracted function KEY has been called on this path" (for called("KEY")).
+func (e *Exec) calledFlag(key string) string { return e.pathFlag("called", key) }
+
+func (e *Exec) pathFlag(kind, key string) string {
+	name := e.heapMap("GS_"+kind+"."+sanitize(key), "Bool")
+	g := name + "@0"
+	if !e.sc.declared[g] {
+		e.sc.declGlobalConst(g, "Bool")
+		e.sc.axiom("succ0:"+name, "(not "+g+")")
+	}
+	return name
 }
 
 func (e *Exec) siteSuffix(k string) string {
@@ -504,6 +595,11 @@ type modTarget struct {
 
 func (e *Exec) resolveModifies(env *SpecEnv, fc *FuncContract) (targets []modTarget, all bool) {
 	if fc.ModAll {
+		return nil, true
+	}
+	// a contract whose frame is not checked ("flag noframe") and that states none is no licence for
+	// its callers to assume that nothing changes: they see "modifies *"
+	if fc.Flags["noframe"] != "" && len(fc.ModClauses) == 0 {
 		return nil, true
 	}
 	for _, c := range fc.ModClauses {
@@ -570,21 +666,24 @@ func (e *Exec) resolveModItem(env *SpecEnv, c *Clause) []modTarget {
 				mt := types.Unalias(v.Typ).Underlying().(*types.Map)
 				mv, md, mc := e.mapHeaps(mt)
 				return []modTarget{{heap: mv, ref: v.T}, {heap: md, ref: v.T}, {heap: mc, ref: v.T}}
-			case "conn", "connin", "connout":
+			case "conn", "connin", "connout", "connclosed", "conndeadline":
 				kind := id.Name
 				v := e.sx(env, inner.Args[0])
 				cid, _ := e.toIntArg(env, v)
 				var out []modTarget
-				if kind != "connout" {
+				if kind == "conn" || kind == "connin" {
 					out = append(out, modTarget{heap: e.heapMap("G_inpos", "(Array Int Int)"), ref: cid})
 				}
-				if kind != "connin" {
+				if kind == "conn" || kind == "connout" {
 					out = append(out, modTarget{heap: e.heapMap("G_outlen", "(Array Int Int)"), ref: cid})
 					out = append(out, modTarget{heap: e.heapMap("G_outwrites", "(Array Int Int)"), ref: cid})
 					out = append(out, modTarget{heap: e.heapMap("G_out", "(Array Int (Array Int Int))"), ref: cid})
 				}
-				if kind == "conn" {
+				if kind == "conn" || kind == "connclosed" {
 					out = append(out, modTarget{heap: e.heapMap("G_closedconn", "(Array Int Bool)"), ref: cid})
+				}
+				if kind == "conn" || kind == "conndeadline" {
+					out = append(out, modTarget{heap: e.heapMap("G_rdeadline", "(Array Int Int)"), ref: cid})
 				}
 				return out
 			case "lockstate":
@@ -744,6 +843,12 @@ func (e *Exec) callEffects(fr *Frame, cc *ssa.CallCommon, depth int) (maps []str
 			return nil, true
 		}
 		set := map[string]bool{"G_alloc": true}
+		if rs := cc.Signature().Results(); rs.Len() > 0 && isErrorType(rs.At(rs.Len()-1).Type()) {
+			set[e.succFlag(fc.Key)] = true
+		}
+		if e.calledNamed[fc.Key] {
+			set[e.calledFlag(fc.Key)] = true
+		}
 		for _, c := range fc.ModClauses {
 			for _, m := range e.staticModMaps(c) {
 				set[m] = true
@@ -765,6 +870,9 @@ func (e *Exec) callEffects(fr *Frame, cc *ssa.CallCommon, depth int) (maps []str
 		if fn.Parent() != nil || e.autoInline(fn) {
 			return nil, false
 		}
+		return nil, true
+	}
+	if fn != nil && fn.Pkg != nil && e.sc.isRepoPkg(fn.Pkg.Pkg) {
 		return nil, true
 	}
 	if pureLib(key) {
@@ -954,7 +1062,7 @@ func (e *Exec) builtinCall(fr *Frame, st *State, name string, args []Val, cc *ss
 		e.mapDelete(st, mt, args[0].T, args[1].T)
 		return Val{T: "0"}
 	case "panic":
-		if fr.recovers {
+		if e.protected(fr, st) {
 			fr.panics = append(fr.panics, st.clone())
 		} else {
 			e.sc.oblig(st.reach, "false", e.obName("panic"), "safety", "explicit panic is reachable", e.pos(pos))
@@ -1081,6 +1189,17 @@ func (e *Exec) rawModMaps(c *Clause) []string {
 		n := strings.TrimPrefix(c.RawMod, "heap:")
 		if n == "B_Slice" {
 			e.boxHeap(types.NewSlice(types.Typ[types.Byte]))
+		}
+		// ghost maps have fixed sorts: register on first mention (they may be read only later)
+		switch {
+		case n == "G_inpos" || n == "G_outlen" || n == "G_outwrites" || n == "G_rdeadline" || strings.HasPrefix(n, "GU_"):
+			e.heapMap(n, "(Array Int Int)")
+		case n == "G_out":
+			e.heapMap(n, "(Array Int (Array Int Int))")
+		case n == "G_closedconn":
+			e.heapMap(n, "(Array Int Bool)")
+		case n == "E_Int":
+			e.elemHeap(types.Typ[types.Byte])
 		}
 		if _, ok := e.heapSort[n]; !ok {
 			return nil // not touched by this unit (yet): nothing to preserve or havoc
